@@ -7,6 +7,9 @@ CHECK = {
         "injected device faults are honest: a failing ReadAt/WriteAt transfers exactly the byte count it reports (0 or half the buffer)",
         "a Truncate that reports an injected failure must leave the file untouched (old length, every old byte, same sectors; an honest short device write may have zeroed exactly the bytes it reported, all past the requested size inside the new last sector); only when the hole source's own Truncate is the failing call the state 'sectors past the new size released, tail of the last sector zeroed, old length, cut-off part reads as the untruncated hole source' is accepted as well",
         "file handles are used from one goroutine at a time (documented: handles are not thread-safe)",
+        "quota probe after every step: an empty WriteAt at offset size+k is answered by the quota layer alone (it charges k, forwards, and releases k again; the base file answers an empty write with (0, nil) without looking at the offset), so it measures the remaining size quota without touching sectors, device or hole source; scratch files for the probe are empty zero-hole-source files that are closed again at once",
+        "a hole source fault may be a short read only together with a non-nil, non-EOF error (io.ReaderAt / HoleSource contract); a short count with a nil error is outside the contract and not generated",
+        "two-fault runs: the second fault is numbered in the call sequence of the run that already has the first fault injected; pairs are drawn (not enumerated) per scenario",
     ],
     "tests": [
         T("filepool", "TestC15FilePoolModel",
@@ -21,7 +24,7 @@ CHECK = {
     ],
 }
 META = {
-    "text": "Generated search, no proof of absence. (1) rapid state machine over QuotaEnforcing(BlockDeviceBacked(BitmapSectorAllocator)) on an in-memory device against a naive sparse-file model: every open file is read back completely and its data/hole map probed after every step, quota and sector arithmetic predicted exactly, then everything is closed and the whole capacity (sectors, file quota, byte quota) re-obtained. (2) Fault enumeration: every fallible call of a generated scenario (device read/write, hole source read/seek/truncate/close, base-pool NewFile, allocator) is made to fail once, exhaustively per scenario, and the same model plus the full-capacity check must hold. (3) The bitmap allocator alone against a set model. Level is fault_enumeration because fault positions are enumerated exhaustively inside each generated scenario; scenarios themselves are sampled.",
+    "text": "Generated search, no proof of absence. (1) rapid state machine over QuotaEnforcing(BlockDeviceBacked(BitmapSectorAllocator)) on an in-memory device against a naive sparse-file model: every open file is read back completely and its data/hole map probed after every step, quota and sector arithmetic predicted exactly, then everything is closed and the whole capacity (sectors, file quota, byte quota) re-obtained. After every step the quota actually charged is measured (exactly MaxFiles-open more files, exactly the model's remaining bytes, through a scratch file and through an empty write on every open file), and every model hole source must have been closed exactly once by the Close of its file, never earlier and never used afterwards. (2) Fault enumeration: every fallible call of a generated scenario (device read/write, hole source read/seek/truncate/close, base-pool NewFile, allocator) is made to fail once, exhaustively per scenario, and the same model plus the full-capacity check must hold; on top of that a few drawn pairs of faults per scenario (2 quick, up to 12 thorough; thorough scenarios up to 40 steps). (3) The bitmap allocator alone against a set model. Level is fault_enumeration because fault positions are enumerated exhaustively inside each generated scenario; scenarios themselves are sampled.",
     "design_ref": "6/C15",
     "note": "Trusts the naive model and the hand-written fakes (memory device, spy allocator, hole source). Sector sizes {1,2,3,4,8,16,512}, sector counts {1..8,63..65,127..129}, at most 5 files, sequential interleavings only. No native coverage-guided fuzzing (cannot be seeded; the rapid search already reaches the 64-bit word boundaries of the bitmap).",
     "technique": "stateful model-based property testing (rapid) against a sparse-file reference model, with per-scenario exhaustive fault enumeration",
